@@ -22,6 +22,7 @@ from .gwtrace import _parse_rejected
 PID = "C20"
 COMBOS = [("serial", "sync"), ("tcp", "sync"), ("serial", "async"), ("tcp", "async")]
 ENV = {"Start", "ReadError", "WriteError", "PeerClose", "Answer", "Tick"}
+SYS = ("Attempt", "Watchdog", "DialBegin")
 
 
 def behaviours(wd, dev, fl, num, depth, seed, focus="all"):
@@ -71,7 +72,7 @@ def play(args):
             a = acts[i]
             # the system actions that follow immediately (urgent) belong to this environment event
             j = i + 1
-            while j < len(acts) and acts[j]["a"] in ("Attempt", "Watchdog"):
+            while j < len(acts) and acts[j]["a"] in SYS:
                 j += 1
             # a connection that breaks before the system is quiet again: "connect ok" directly followed by a read error
             # is played as ONE step (the device is created with the error already pending)
@@ -79,10 +80,11 @@ def play(args):
                    and idx % 2 == 0):
                 acts[j - 1] = dict(acts[j - 1], okerr=True)
                 j += 1
-                while j < len(acts) and acts[j]["a"] in ("Attempt", "Watchdog"):
+                while j < len(acts) and acts[j]["a"] in SYS:
                     j += 1
             group = acts[i:j]
-            plan = [("okerr" if g.get("okerr") else g["ok"]) for g in group if g["a"] == "Attempt"]
+            plan = [("hold" if g["a"] == "DialBegin" else "okerr" if g.get("okerr") else g["ok"]) for g in group
+                    if g["a"] in ("Attempt", "DialBegin")]
             name = a["a"]
             if name in ("ReadError", "WriteError", "PeerClose", "Answer") and not L.live():
                 break          # the real system has no live connection here: it diverged earlier (already recorded)
@@ -103,7 +105,11 @@ def play(args):
                 L.data(b"0;255;3;0;2;2.3.2\n")
             elif name == "Stop":
                 L.stop()
-            elif name in ("Attempt", "Watchdog"):
+            elif name == "DialEnd":
+                if not L.release(a["ok"]):
+                    i = j       # the dial was cancelled (asyncio stop()): nothing ends, the event does not exist
+                    continue
+            elif name in SYS:
                 pass            # a behaviour never starts a group with a system action except after Init; tolerated
             if not fed and L.live() and idx % 2 == 0:
                 # ordinary traffic on the link (a stuttering step for Link.tla): the gateway now knows nodes
@@ -185,7 +191,7 @@ def run(tier):
                      f' MaxTime = {11 if tier == "quick" else 16}\n'
                      "INVARIANT MadeOncePerConnection\nINVARIANT LostOncePerLostConnection\nINVARIANT AtMostOneLiveLink\n"
                      "INVARIANT ReconnectAfterLoss\nINVARIANT RetryEveryR\nINVARIANT QuietAfterStop\nINVARIANT SilentDroppedInTime\n"
-                     "PROPERTY AnsweredNeverDropped\nCHECK_DEADLOCK FALSE\n")
+                     "PROPERTY AnsweredNeverDropped\nPROPERTY StoppedMeansNoNewLink\nCHECK_DEADLOCK FALSE\n")
         r = tlc.run("Link", cfg, workdir=os.path.join(wd, f"mc_{dev}_{fl}"), timeout=1800)
         if r.violation:
             raise tlc.MachineryError(f"Link.tla {dev}/{fl} violates {r.violation}\n{r.trace_text[:2000]}")
@@ -221,11 +227,11 @@ def run(tier):
         ev = r["trace"]["ev"][r["index"] - 1]
         # the environment event this (system) event belongs to
         k = r["index"] - 1
-        while k > 0 and r["trace"]["ev"][k]["a"] in ("Attempt", "Watchdog"):
+        while k > 0 and r["trace"]["ev"][k]["a"] in SYS:
             k -= 1
         cause = r["trace"]["ev"][k]["a"]
         c = r["trace"]["cfg"]
-        sig = {"clauses": r["clauses"], "event": ev["a"], "after": cause, "dev": c["dev"], "flavour": c["fl"]}
+        sig = {"clauses": r["clauses"], "event": "Attempt" if ev["a"] == "DialBegin" else ev["a"], "after": cause, "dev": c["dev"], "flavour": c["fl"]}
         rep.violation(sig, {"cfg": c, "actions": r["trace"]["acts"], "rejected_at": r["index"], "observation": ev["o"]})
     _double_reconnect(rep, wd, tier)
     rep.cov["rule"] = ("event sequences generated by TLC from LinkGen.tla (connect failures / successes, read errors, write errors, orderly "
